@@ -64,21 +64,34 @@ RECURSIVE Follow(_, _, _, _, _)
 InlAt(c, site) == IF "inl" \in DOMAIN c /\ \E j \in DOMAIN c.inl : c.inl[j].site = site
                    THEN c.inl[CHOOSE j \in DOMAIN c.inl : c.inl[j].site = site].id ELSE ""
 
+(* Fragments that are JSON pointers to an INLINE object (one that is no component and no whole file): *)
+(*   <<"#inl", site>>                      into the root object of a whole-file target                *)
+(*   <<"#pathinl", path name, site>>       into a path item of the target document                    *)
+(*   <<"#compinl", collection, name, site>> BELOW a component of the target document (the component    *)
+(*        may belong to another collection than the kind of the reference: the body schema of a       *)
+(*        response, the schema of a parameter, a property of a schema ...)                            *)
+IsInlFrag(r) == r.frag # <<>> /\ r.frag[1] \in {"#inl", "#pathinl", "#compinl"}
+InlSlot(u, tf, r, kind) == CASE r.frag[1] = "#inl" -> SlotAt(u, tf, kind, "")
+                             [] r.frag[1] = "#pathinl" -> SlotAt(u, tf, "pathItems", r.frag[2])
+                             [] r.frag[1] = "#compinl" -> SlotAt(u, tf, r.frag[2], r.frag[3])
+InlSite(r) == CASE r.frag[1] = "#inl" -> r.frag[2] [] r.frag[1] = "#pathinl" -> r.frag[3] [] r.frag[1] = "#compinl" -> r.frag[4]
+
+(* <<"#def", kind, name>>: a pointer to a definition kept OUTSIDE the typed structure of the target ("#/x-defs/<name>", JSON-Schema style): *)
+(* in a whole-file element it is that file's own definition.  Its slot is [file, kind, name = "#def:<name>"].                             *)
+DefName(n) == "#def:" \o n
+FragKind(r, kind) == IF r.frag = <<>> THEN kind ELSE IF r.frag[1] = "#def" THEN r.frag[2] ELSE r.frag[1]
+FragName(r) == IF r.frag = <<>> THEN "" ELSE IF r.frag[1] = "#def" THEN DefName(r.frag[3]) ELSE r.frag[2]
+
 Follow(u, f, r, kind, seen) ==
-   IF r.frag # <<>> /\ r.frag[1] = "#inl"
-   THEN \* a JSON pointer into the root object of a whole-file target: the inline object at that site
-        LET tf == TargetFile(f, r)  i == SlotAt(u, tf, kind, "") IN
-        IF i = 0 \/ ~IsConcrete(u.slots[i].c) \/ InlAt(u.slots[i].c, r.frag[2]) = "" THEN [fail |-> "dangling"]
-        ELSE [id |-> InlAt(u.slots[i].c, r.frag[2]), slot |-> i]
-   ELSE IF r.frag # <<>> /\ r.frag[1] = "#pathinl"
-   THEN \* a JSON pointer into a path item of the target document (<<"#pathinl", path name, site>>): the inline object there
-        LET tf == TargetFile(f, r)  i == SlotAt(u, tf, "pathItems", r.frag[2]) IN
-        IF i = 0 \/ ~IsConcrete(u.slots[i].c) \/ InlAt(u.slots[i].c, r.frag[3]) = "" THEN [fail |-> "dangling"]
-        ELSE [id |-> InlAt(u.slots[i].c, r.frag[3]), slot |-> i]
+   IF IsInlFrag(r)
+   THEN \* a JSON pointer to an inline object: the object at that site of the (concrete) slot the pointer goes through
+        LET tf == TargetFile(f, r)  i == InlSlot(u, tf, r, kind) IN
+        IF i = 0 \/ ~IsConcrete(u.slots[i].c) \/ InlAt(u.slots[i].c, InlSite(r)) = "" THEN [fail |-> "dangling"]
+        ELSE [id |-> InlAt(u.slots[i].c, InlSite(r)), slot |-> i]
    ELSE
    LET tf == TargetFile(f, r)
-       k  == IF r.frag = <<>> THEN kind ELSE r.frag[1]
-       nm == IF r.frag = <<>> THEN "" ELSE r.frag[2]
+       k  == FragKind(r, kind)
+       nm == FragName(r)
        i  == SlotAt(u, tf, k, nm)
    IN
    IF k # kind THEN [fail |-> "wrongkind"]
@@ -128,13 +141,32 @@ SiteKey(site) == CASE site = "properties" -> "properties/p" [] site = "items" ->
 (* RFC 6901: in a pointer token "~" is written ~0 and "/" is written ~1 *)
 (* ... and a fragment is part of a URI reference: a space is written %20 and a literal "%" %25                     *)
 EscName(n) == CASE n = "a/b" -> "a~1b" [] n = "a~1b" -> "a~01b" [] n = "a~b" -> "a~0b" [] n = "a~0b" -> "a~00b"
-                [] n = "a b" -> "a%20b" [] n = "a%20b" -> "a%2520b" [] OTHER -> n
-PathSiteKey(site) == CASE site = "post.requestBody.schema" -> "post/requestBody/content/application~1json/schema" [] OTHER -> site
+                [] n = "a b" -> "a%20b" [] n = "a%20b" -> "a%2520b"
+                \* names of templated paths ("/u/{id}"): the slot name is the path without its leading "/"
+                [] n = "u/{id}" -> "u~1{id}" [] n = "u/{uid}" -> "u~1{uid}" [] n = "u/{id}/" -> "u~1{id}~1" [] n = "U/{id}" -> "U~1{id}"
+                [] n = "u/{id}/v" -> "u~1{id}~1v" [] n = "u/{uid}/v" -> "u~1{uid}~1v"
+                [] OTHER -> n
+PathSiteKey(site) == CASE site = "post.requestBody.schema" -> "post/requestBody/content/application~1json/schema"
+                       [] site = "post.responses" -> "post/responses/200"
+                       [] site = "post.responses~default" -> "post/responses/default"       \* (never an existing entry: a near miss of "200")
+                       [] site = "post.responses~2XX" -> "post/responses/2XX"
+                       [] OTHER -> site
+(* the pointer from a component of collection ck down to the inline object at one of its sites *)
+CompSiteKey(ck, site) == CASE site = "properties" -> "properties/p"
+                           [] site = "schema" -> "schema"
+                           [] site = "content.schema" -> "content/application~1json/schema"
+                           [] site = "content.examples" -> "content/application~1json/examples/e"
+                           [] site = "examples" -> "examples/e"
+                           [] site = "headers" -> "headers/H"
+                           [] site = "links" -> "links/L"
+                           [] OTHER -> site
 RefText(r) == JoinSlash(r.path) \o (IF r.frag = <<>> THEN ""
                                    ELSE IF r.frag[1] = "#inl" THEN "#/" \o SiteKey(r.frag[2])
-                                   ELSE IF r.frag[1] = "#pathinl" THEN "#/paths/~1" \o r.frag[2] \o "/" \o PathSiteKey(r.frag[3])
+                                   ELSE IF r.frag[1] = "#pathinl" THEN "#/paths/~1" \o EscName(r.frag[2]) \o "/" \o PathSiteKey(r.frag[3])
+                                   ELSE IF r.frag[1] = "#compinl" THEN "#/components/" \o r.frag[2] \o "/" \o EscName(r.frag[3]) \o "/" \o CompSiteKey(r.frag[2], r.frag[4])
+                                   ELSE IF r.frag[1] = "#def" THEN "#/x-defs/" \o r.frag[3]
                                    ELSE IF r.frag[1] = "#coll" THEN "#/components/" \o r.frag[2]        \* a whole collection: an object, but of no kind
-                                   ELSE IF r.frag[1] = "pathItems" THEN "#/paths/~1" \o r.frag[2]      \* the path "/<name>" of the target document
+                                   ELSE IF r.frag[1] = "pathItems" THEN "#/paths/~1" \o EscName(r.frag[2])      \* the path "/<name>" of the target document
                                    ELSE "#/components/" \o r.frag[1] \o "/" \o EscName(r.frag[2]))
 
 (* files other than the root that loading may read: targets of refs found in loaded documents *)
